@@ -52,6 +52,9 @@ def step (d : DSt) (w : List String) : DSt × List String :=
       let nsOf := fun k => match d.ns.find? (·.1 = k) with | some p => p.2 | none => []
       (d, [" ".intercalate ((registerItem nsOf o).map toString)])
     | none => (d, ["bad-op"])
+  | "expand" :: sel :: paths =>
+    -- expand <selected package name> <walked module paths relative to the package, '/'-separated>…
+    (d, [" ".intercalate ((namesUnder (dotted sel) (paths.map fun p => (p.splitOn "/").filter (· ≠ ""))).map (".".intercalate ·))])
   | ["reset"] => ({}, [])
   | _ => (d, ["bad-op"])
 
